@@ -1,45 +1,61 @@
-"""C15 finding toml-values-unchecked: fpm.toml values are neither converted nor type-checked.
-Run with PYTHONPATH=/repo.  Exit 1 while the defect is present."""
+"""C15 finding toml-values-unchecked (repaired): values of fpm.toml [extra.ford] are converted and
+checked against the declared type like those of the project file: a number or flag given as text
+is converted (max_frontpage_items = "4" gives 4, as `max_frontpage_items: 4` does), a value that
+cannot be converted or is of another type is rejected with a message naming the option.
+Regression witness.  Run with PYTHONPATH=<repo>.  Exit 1 while the defect is present."""
 import contextlib, io, os, pathlib, shutil, sys, tempfile
 os.environ["FORD_DEBUGGING"] = "1"
 import ford
 
 
-def effective(md="", toml=None, config=None, cwd_elsewhere=False, files=()):
-    """ford.load_settings + ford.parse_arguments on a scratch project; returns the settings object
-    or the exception"""
+def command_line(md="", toml=None, config=None):
+    """the `ford` command line (ford.initialize) on a scratch project: the settings object or the exception"""
     root = pathlib.Path(os.path.realpath(tempfile.mkdtemp(prefix="c15demo_")))
-    proj, other = root / "p", root / "w"
-    proj.mkdir(); other.mkdir()
-    (proj / "proj.md").write_text(md)
+    (root / "proj.md").write_text(md)
     if toml is not None:
-        (proj / "fpm.toml").write_text(toml)
-    for rel in files:
-        (proj / rel).parent.mkdir(parents=True, exist_ok=True)
-        (proj / rel).write_text("module m_%s\nend module\n" % pathlib.Path(rel).stem)
-    old = os.getcwd()
-    os.chdir(other if cwd_elsewhere else proj)
-    directory = "../p" if cwd_elsewhere else ""
+        (root / "fpm.toml").write_text(toml)
+    old, argv = os.getcwd(), sys.argv
+    os.chdir(root)
+    sys.argv = ["ford", "proj.md"] + ([f"--config={config}"] if config else [])
     try:
-        with contextlib.redirect_stdout(io.StringIO()) as out:
-            docs, settings = ford.load_settings(md, directory, "proj.md")
-            settings, docs = ford.parse_arguments({"project_file": None, "config": config}, docs, settings, directory)
-            extra = CALLBACK(settings, proj) if CALLBACK else None
-        return settings, out.getvalue(), extra
-    except BaseException as e:  # noqa
-        return e, "", None
+        with contextlib.redirect_stdout(io.StringIO()), contextlib.redirect_stderr(io.StringIO()):
+            settings, _ = ford.initialize()
+        return settings
+    except BaseException as e:  # noqa -- the exception is the outcome
+        return e
     finally:
         os.chdir(old)
+        sys.argv = argv
         shutil.rmtree(root)
 
 
-CALLBACK = None
+def show(label, r, *names):
+    if isinstance(r, BaseException):
+        print(f"{label:52} -> {type(r).__name__}: {r}")
+    else:
+        print(f"{label:52} -> accepted: " + ", ".join(f"{n} = {getattr(r, n)!r}" for n in names))
 
-t, _, _ = effective(toml='[extra.ford]\npreprocess = false\nmax_frontpage_items = "4"\ngraph = "maybe"\n')
-m, _, _ = effective(md="preprocess: false\nmax_frontpage_items: 4\n")
-g, _, _ = effective(md="preprocess: false\ngraph: maybe\n")
-print("fpm.toml  max_frontpage_items:", repr(getattr(t, "max_frontpage_items", t)), " graph:", repr(getattr(t, "graph", t)))
-print("markdown  max_frontpage_items:", repr(getattr(m, "max_frontpage_items", m)))
-print("markdown  graph: maybe ->", repr(g))
-ok = isinstance(t, BaseException) or (t.max_frontpage_items == 4 and isinstance(t.graph, bool))
+
+def rejected_naming(r, name):
+    return isinstance(r, BaseException) and f"'{name}'" in str(r)
+
+
+HEAD = "[extra.ford]\npreprocess = false\n"
+a = command_line(toml=HEAD + 'max_frontpage_items = "4"\nsearch = "FALSE"\n')
+m = command_line(md="preprocess: false\nmax_frontpage_items: 4\nsearch: FALSE\n")
+b = command_line(toml=HEAD + 'graph = "maybe"\n')
+c = command_line(toml=HEAD + "graph = 3\n")
+d = command_line(toml=HEAD + "max_frontpage_items = true\n")
+e = command_line(toml=HEAD + "project = 5\n")
+show('fpm.toml  max_frontpage_items = "4", search = "FALSE"', a, "max_frontpage_items", "search")
+show("markdown  max_frontpage_items: 4, search: FALSE", m, "max_frontpage_items", "search")
+show('fpm.toml  graph = "maybe"', b, "graph")
+show("fpm.toml  graph = 3", c, "graph")
+show("fpm.toml  max_frontpage_items = true", d, "max_frontpage_items")
+show("fpm.toml  project = 5", e, "project")
+ok = (not isinstance(a, BaseException) and not isinstance(m, BaseException)
+      and a.max_frontpage_items == m.max_frontpage_items == 4 and type(a.max_frontpage_items) is int
+      and a.search is False and m.search is False
+      and rejected_naming(b, "graph") and rejected_naming(c, "graph")
+      and rejected_naming(d, "max_frontpage_items") and rejected_naming(e, "project"))
 sys.exit(0 if ok else 1)
